@@ -45,6 +45,14 @@ class C09(InvProp):
             for l_, val in ((l1, 'OPEN'), (l2, 'CLOSED')):
                 scn['controls'].append({'name': 'iso%d' % (len(scn['controls']) + 1), 'kind': 'simple', 'cond': {'t': 'simtime', 'rel': '=', 'thr': t},
                                         'then': [{'link': l_['id'], 'attr': 'status', 'value': val}], 'priority': 3})
+        vs_ = [l_ for l_ in scn['links'] if l_['type'] == 'valve']
+        st_ = [c_ for c_ in scn['controls'] if c_['kind'] == 'simple' and c_['then'][0]['attr'] == 'status']
+        if vs_ and st_ and rng.chance(0.3):
+            # right after a status change, at the same instant, a control that changes something else (a valve setting)
+            c0 = rng.pick(st_)
+            v_ = rng.pick(vs_)
+            scn['controls'].insert(scn['controls'].index(c0) + 1, {'name': 'set%d' % (len(scn['controls']) + 1), 'kind': 'simple', 'cond': dict(c0['cond']),
+                                   'then': [{'link': v_['id'], 'attr': 'setting', 'value': round((v_['setting'] if v_['setting'] > 0 else 5.0) * 1.1, 6)}], 'priority': 3})
         if rng.chance(0.25):
             gen.add_level_controls(rng, scn, 1)
         e1.add_faults(rng, scn, p_pause=0.5, p_rescue=0.1)
